@@ -27,6 +27,10 @@ CLAIMED = {
    text="Bounded model checking of the binary codecs: for every Encodable/Decodable pair of sos-core and sos-vault the real decoder and encoder run from the MIR of the current tree as decode(b) -> v1, encode(v1) -> e1, decode(e1) -> v2 over symbolic bytes b, so v1 ranges over every value within the stated bounds (free-length fields <= 16 bytes, <= 2 collection elements; smaller for composite types in the quick tier). z3 decides per path that encode succeeds, decode(e1) succeeds and consumes exactly the bytes written, v2 == v1 field by field, and that encode consults neither clock nor RNG; counterexamples are replayed natively (decode/encode/decode/encode must be stable).",
    note="Trusted: rustc MIR, mirsym with its rope writer/reader and std models, z3. Assumed: external text formats (url, urn, age, pem, vcard, JSON bodies) parse/print as inverses. Outside: prost wire conversions and the database row mapping (not built), values larger than the bounds, SecretRow and Vault containers in the quick tier (thorough only).",
    design="DESIGN.md section 3, C14"),
+ "C20": dict(
+   text="Bounded model checking of the index bookkeeping: SearchIndex::{prepare,commit,add,update,remove,remove_vault} and DocumentCount::{add,remove} run from the MIR of the current tree on every history of <= 2 (quick) / 3 (thorough) operations over two folders x two secret ids from the empty index, with symbolic kind / tag / favourite attributes and an optional archive folder. On every feasible path documents() holds exactly one entry per live (folder,id), the per-folder, per-kind, per-tag and favourites counters equal a recount of documents(), and the keys given to the text index equal the document keys; counterexamples are replayed on a real SearchIndex.",
+   note="Bookkeeping kernel only. Trusted: rustc MIR, mirsym models (BTreeMap/HashMap/HashSet as lists, probly-search as a key set), z3. Outside: tokenisation and ranking, queries, the merge replay in folder_sync.rs, the LocalAccount plumbing that drives the index, equality with an index rebuilt from decrypted folders.",
+   design="DESIGN.md section 3, C20"),
  "C08": dict(
    text="Bounded model checking of the real comparison code: CommitTree::{append,commit,head,proof,compare} and CommitProof::verify_leaves are executed from the MIR of the current tree for every pair of sequence lengths up to the bound (4x4 quick, 7x7 thorough) with symbolic leaf identifiers, so one solver query covers every equality pattern between the two logs (repeats, equal leaves over different prefixes). The oracle is the prefix relation on the raw sequences; z3 decides each implication per path, counterexamples are replayed on the real CommitTree. The tests use one pair of trees with unique leaves where one extends the other.",
    note="Trusted: rustc MIR, the mirsym interpreter, the ideal-hash port of rs_merkle 1.5 (compared with the real crate on every run: roots, leaves, proofs, verification matrix for sizes <= 8, batched commits, rollbacks), collision-freeness of SHA-256, z3. Bounds: sequence lengths. Outside: proof (de)serialisation (C14/C15), the network around the ancestor scan.",
